@@ -137,8 +137,9 @@ def weave_file(src_path, spec_items):
             idx = hits[it['nth'] - 1] if it['nth'] and len(hits) >= it['nth'] else (hits[0] if len(hits) == 1 else None)
             if idx is None:
                 raise WeaveError(f'{it["where"]}: file-scope anchor {it["anchor"]!r} matched {len(hits)} lines')
-            if not lines[idx].rstrip().endswith(';') or lines[idx][:1] in (' ', '\t'):
-                raise WeaveError(f'{it["where"]}: file-scope anchor is not an unindented declaration line ending in ";"')
+            code = re.sub(r'/\*.*?\*/', '', lines[idx]).rstrip()
+            if lines[idx][:1] in (' ', '\t') or not (code.endswith(';') or code.startswith('#include')):
+                raise WeaveError(f'{it["where"]}: file-scope anchor is not an unindented declaration line ending in ";" (or an #include line)')
             inserts.append((offs[idx + 1] if mode == 'gafter' else offs[idx], seq, text))
             continue
         start, ob, cb = func_extent(lines, it['func'])
